@@ -183,6 +183,11 @@ func handleCharts(render renderer, chartBucket storage.BucketHandle) content.Han
 	return func(w http.ResponseWriter, r *http.Request) error {
 		ctx := r.Context()
 		if p := strings.TrimPrefix(r.URL.Path, "/charts/"); p != "" {
+			if strings.ContainsAny(p, `/\`) {
+				// Chart objects are flat; anything else (such as an encoded
+				// "../") would name an object outside the chart bucket.
+				return content.Status(w, http.StatusNotFound)
+			}
 			return handleChart(ctx, w, p, render, chartBucket)
 		}
 		it := chartBucket.Objects(ctx, "")
